@@ -250,8 +250,10 @@ REGISTRY = {
     },
     'C06': {
         'theorems': ['PP.C06.fits_iff_spec', 'PP.C06.broken_only_if', 'PP.C06.flat_only_if', 'PP.fitsE_iff_scan',
-                     'PP.C06.smart_iff_demands', 'PP.C06.broken_only_if_smart', 'PP.C06.flat_only_if_smart', 'PP.fitsSmart_iff_demands'],
-        'modules': ENGINE_MODULES + ['PP.Proofs.FitsE', 'PP.Proofs.Scan', 'PP.Props.C06', 'PP.Proofs.SmartSpec', 'PP.Props.C06b'],
+                     'PP.C06.smart_iff_demands', 'PP.C06.broken_only_if_smart', 'PP.C06.flat_only_if_smart', 'PP.fitsSmart_iff_demands',
+                     'PP.C06.demands_mono', 'PP.C06.fits_mono_smart', 'PP.C06.fits_mono_fast', 'PP.C06.wider_keeps_flat',
+                     'PP.C06.wider_keeps_flat_fast', 'PP.C06.flat_if_enough'],
+        'modules': ENGINE_MODULES + ['PP.Proofs.FitsE', 'PP.Proofs.Scan', 'PP.Props.C06', 'PP.Proofs.SmartSpec', 'PP.Props.C06b', 'PP.Props.C06c'],
         'sections': [{'name': 'engine-classic', 'run': engine_section(classic=True)},
                      {'name': 'one-line-stable-oracle', 'run': oracle_sec('C06')},
                      {'name': 'values-one-line', 'run': values_sec('oneline_section')}],
